@@ -699,3 +699,63 @@ pub fn gen_shape_program(r: &mut Rng, id: u64, thorough: bool, level: u32) -> Pr
     txns.push(Txn { ops: vec![], end: End::Abort, reopen: false });
     Program { id, kt, vt, base: page, shape, txns, page }
 }
+
+/// S2 sweep programs (added for the extract refinement theorems): a committed tree of height >= 2 at a 512-byte page,
+/// then one extract_if / extract_from_if per transaction with the consumption patterns of the S3 "extract-sweep"
+/// family -- k x next() or k x next_back() only (the two one-ended theorems), a full drain from one end, k steps from
+/// one end followed by a drain from the other, strict alternation -- over PRESENT bounds; most transactions are
+/// aborted so that every sweep sees the same tree.  The check replays them through the extracted RangeMut machine
+/// (shape store and logical store) and compares the real tree after every operation.
+pub fn gen_shape_sweep_program(r: &mut Rng, id: u64, thorough: bool) -> Program {
+    let (kt, vt) = match r.below(10) {
+        0..=3 => (KType::U64, VType::Bytes),
+        4..=6 => (KType::Bytes, VType::Bytes),
+        7 => (KType::Str, VType::U64),
+        8 => (KType::Str, VType::Bytes),
+        _ => (KType::U64, VType::U64),
+    };
+    let page = 512usize;
+    let pool_n = match vt {
+        VType::U64 => 150 + r.below(if thorough { 300 } else { 150 }) as usize,
+        _ => 40 + r.below(if thorough { 140 } else { 80 }) as usize,
+    };
+    let pool = gen_key_pool(r, kt, page, pool_n);
+    let sp = sorted_pool(kt, &pool);
+    let mut txns: Vec<Txn> = vec![];
+    let mut load: Vec<Op> = vec![];
+    if r.chance(1, 2) { for k in &sp { load.push(Op::Insert(k.clone(), shape_value(r, vt, page, false))); } }
+    else { for k in &shuffled(r, &pool) { load.push(Op::Insert(k.clone(), shape_value(r, vt, page, false))); } }
+    let parts = 1 + r.below(2) as usize;
+    let chunk = load.len().div_ceil(parts).max(1);
+    for c in load.chunks(chunk) { txns.push(Txn { ops: c.to_vec(), end: End::Commit, reopen: false }); }
+    let n = sp.len();
+    let pick_bound = |r: &mut Rng, lo_side: bool| -> BoundS {
+        let i = if r.chance(2, 3) { if lo_side { r.below((n / 4).max(1) as u64) as usize } else { n - 1 - r.below((n / 4).max(1) as u64) as usize } }
+                else { r.below(n as u64) as usize };
+        match r.below(5) { 0 => BoundS::U, 1 | 2 => BoundS::I(sp[i].clone()), _ => BoundS::E(sp[i].clone()) }
+    };
+    let nsweeps = if thorough { 18 } else { 11 };
+    let kmax = 3 + r.below(30) as usize;
+    let (lo, hi) = (pick_bound(r, true), pick_bound(r, false));
+    for j in 0..nsweeps {
+        let k = 1 + (j * 3 + r.below(3) as usize) % kmax;
+        let (lo, hi) = if j % 4 == 3 { (pick_bound(r, true), pick_bound(r, false)) } else { (lo.clone(), hi.clone()) };
+        let script: String = match j % 8 {
+            0 => "b".repeat(k),
+            1 => "f".repeat(k),
+            2 => "D".into(),
+            3 => "d".into(),
+            4 => "b".repeat(k) + "d",
+            5 => "f".repeat(k) + "D",
+            6 => "fb".repeat(k) + if r.chance(1, 2) { "d" } else { "D" },
+            _ => "bf".repeat(k),
+        };
+        let m = *r.pick(&[2u64, 3, 5]);
+        let rr = if r.chance(1, 2) { m } else { r.below(m + 1) };
+        let full = matches!((&lo, &hi), (BoundS::U, BoundS::U));
+        let ops = vec![Op::Extract(lo.clone(), hi.clone(), m, rr, script + if r.chance(1, 2) { "c" } else { "x" }, full)];
+        txns.push(Txn { ops, end: if r.chance(1, 5) { End::Commit } else { End::Abort }, reopen: false });
+    }
+    txns.push(Txn { ops: vec![], end: End::Abort, reopen: false });
+    Program { id, kt, vt, base: page, shape: "extract-sweep", txns, page }
+}
